@@ -1,6 +1,7 @@
 (* area client: model units for the RPC client shell (receive loops, handshake, framing). *)
 From Coq Require Import String.
 From V Require Import Prelude.Base Prelude.Val Model.Recv Model.Handshake gen.C_client.
+From V Require Import Model.Pdu Model.Request Model.Framing Model.Toy.
 
 Fixpoint zs_of_vals (l : list val) : option (list Z) :=
   match l with
@@ -88,10 +89,38 @@ Definition u_bind_result (a : val) : val :=
   | _ => bad
   end.
 
+(* ---- framing ---- *)
+(* [flavour; auth; sign; sig_len; provider type; seq; ctx; opnum; stub; vt|None] -> [wire; [header; body; trailer; sign] | None] *)
+Definition u_framing (a : val) : val :=
+  match a with
+  | VL [VI _flavour; VI auth; VI sign; VI sig_len; VI ptype; VI seq; VI ctx; VI opnum; VB stub; vt] =>
+    match opt_bytes_of_val vt with
+    | Some vt' =>
+      let pv := if auth =? 0 then None else Some {| pv_type := ptype; pv_sig_len := sig_len |} in
+      match send_request (toy_wrap seq sig_len) pv (negb (sign =? 0)) ctx opnum stub vt' with
+      | Ok (wire, wa) =>
+        VL [VB wire; match wa with
+                     | Some w => VL [VB (wa_header w); VB (wa_body w); VB (wa_trailer w); vbool (wa_sign w)]
+                     | None => VN end]
+      | Raise e => VE e
+      end
+    | None => bad
+    end
+  | _ => bad
+  end.
+(* [stub; pad_length|None] -> stripped stub *)
+Definition u_strip (a : val) : val :=
+  match a with
+  | VL [VB stub; VI p] => VB (strip_auth_pad stub (Some p))
+  | VL [VB stub; VN] => VB (strip_auth_pad stub None)
+  | _ => bad
+  end.
+
 Open Scope string_scope.
 Definition units : list (string * (val -> val)) :=
   [ ("recv.sync", u_recv_sync); ("recv.async", u_recv_async);
-    ("handshake", u_handshake); ("bind_result", u_bind_result) ].
+    ("handshake", u_handshake); ("bind_result", u_bind_result);
+    ("framing", u_framing); ("strip", u_strip) ].
 
 Fixpoint lookup (n : string) (l : list (string * (val -> val))) : option (val -> val) :=
   match l with
